@@ -346,7 +346,7 @@ def check_block(ctx, preds, host, kind, uis, paths, qs, fs, forms=FORMS, simple=
 # generators
 # ---------------------------------------------------------------------------------------------------------------------
 UIS = ["", "user:pw", "{D}", "{D}:{D}"]
-PATHS = ["", "/", "/abc123", "/a/b/c", "/index.html", "/{D}", "/x.{D}/", "/@{D}", "/http://{D}/p"]
+PATHS = ["", "/", "/abc123", "/a/b/c", "/index.html", "/index.php", "/home.aspx/", "/{D}", "/x.{D}/", "/@{D}", "/http://{D}/p"]
 QS = ["", "?u=1", "?@{D}", "?x=http://{D}/"]
 FS = ["", "#{D}", "#@{D}", "#/x.{D}/"]
 FOREIGN = ["evil.fr", "example.org"]
